@@ -116,7 +116,7 @@ def limit_programs(quick):
                 body += "-a; -a; -a; -a; " [:0]      # (kept: a target one off the special value)
                 body = "a; " * ((nb + 1 - 20) // 4) + "-a; " * 4
             P.append(("jump-placeholder-target-%d%+d" % (target, delta), "let a = 1; fn f(c) { while c { %s } return 0; } let z = 1;" % body, ("reject",), "binary"))
-    if not quick:
+    if True:
         # a capturing function literal compiled when the constant pool is just about full: a window of pool sizes around
         # 65536 (each filler function holds distinct integer literals); either the program is rejected or it prints 4
         for where, tail in (("filter-end", "@ end { let k = z; let f = fn(x) { x + k }; push(__o, f(z)); puts(__o); }"),
